@@ -22,7 +22,7 @@ Section Converge.
   Context {V Ch Req D : Type}.
   Context (candidate : V -> Ch -> V) (candidate_rb : V -> Ch -> V) (rollback_of : V -> Ch -> Ch)
           (overlay : V -> V -> V) (commit_merge : N -> N -> V -> V -> Ch -> V)
-          (payload : N -> V -> Ch -> option Req) (record_applied : N -> V -> V -> V -> Ch -> V)
+          (payload : N -> V -> Ch -> option Req) (record_applied : N -> N -> V -> V -> V -> Ch -> V)
           (touched : N -> V -> Ch -> V) (restore : V -> V -> V)
           (resync_payload : V -> list (option Req)) (doc_ok : V -> bool)
           (dev_apply : D -> Req -> D) (stamp : N -> Ch -> Ch) (v_empty : V) (d_empty : D) (ch_empty : Ch).
@@ -65,11 +65,11 @@ Section Converge.
       one invocation works on (what the run-time monitors check on every observed step, and what the Examples
       establish by computation on the executable instance), and [X] for all values. *)
   (* a complete apply answered OK: [inl], [m] the inline values and the map of the applied values, [vw] the loaded
-     committed view, [d] the state of the device *)
-  Definition apply_sound_at (i : N) (inl m vw : V) (ch : Ch) (req : Req) (d : D) : Prop :=
+     committed view, [d] the state of the device, [ord] the Go map iteration order the recording follows *)
+  Definition apply_sound_at (ord i : N) (inl m vw : V) (ch : Ch) (req : Req) (d : D) : Prop :=
     payload i vw ch = Some req -> abs_dev d = abs_app (overlay inl m) ->
-    abs_dev (dev_apply d req) = abs_app (loaded (record_applied i m (overlay inl m) vw ch)).
-  Definition apply_sound : Prop := forall i inl m vw ch req d, apply_sound_at i inl m vw ch req d.
+    abs_dev (dev_apply d req) = abs_app (loaded (record_applied ord i m (overlay inl m) vw ch)).
+  Definition apply_sound : Prop := forall ord i inl m vw ch req d, apply_sound_at ord i inl m vw ch req d.
   (* a status update stores the loaded applied values again: what they stand for does not change, neither once the
      entry has been written (inline values cleared) ... *)
   Definition restore_sound_at (inl m : V) : Prop := abs_app (loaded (restore m (overlay inl m))) = abs_app (overlay inl m).
@@ -508,7 +508,7 @@ Section Converge.
       c_applied C < i /\ ~ unsynced C /\ payload i (view C) (rb_change P) = Some r /\
       fst (rec_prop o w (t, i)) =
         [EDev (DevSet t m (c_term C) (Some i) r COk);
-         EPutAValues t (record_applied i (c_avalues C) (aview C) (view C) (rb_change P));
+         EPutAValues t (record_applied (o_order o) i (c_avalues C) (aview C) (view C) (rb_change P));
          EPutCfg t (applied_cfg i C P);
          EPutProp (t, i) (P <| p_apply := Some Done |> <| p_term := c_term C |>)].
   Proof.
@@ -533,13 +533,13 @@ Section Converge.
     dstate_of w' t = dev_apply (dstate_of w t) r /\
     exists (C : config) (P : prop) (C' : config), cfgs w !! t = Some C /\ props w !! (t, i) = Some P /\
       cfgs w' !! t = Some C' /\ c_applied C' = i /\ c_applied C < i /\ payload i (view C) (rb_change P) = Some r /\
-      aview C' = loaded (record_applied i (c_avalues C) (aview C) (view C) (rb_change P)) /\
+      aview C' = loaded (record_applied (o_order o) i (c_avalues C) (aview C) (view C) (rb_change P)) /\
       c_state C' = c_state C /\ c_aterm C' = c_aterm C /\ c_term C' = c_term C.
   Proof.
     intros Hs Hk.
     destruct (apply_effects o w t i m term r Hs) as (C & P & HC & HP & -> & Hlt & _ & Hpay & Hes).
     cbn zeta. cbn [Proto2.step Proto2.reconcile]. rewrite Hes.
-    set (va' := record_applied i (c_avalues C) (aview C) (view C) (rb_change P)).
+    set (va' := record_applied (o_order o) i (c_avalues C) (aview C) (view C) (rb_change P)).
     assert (Hcfg : exists C', cfgs (fold_left apply_eff (firstn k
                [EDev (DevSet t m (c_term C) (Some i) r COk); EPutAValues t va'; EPutCfg t (applied_cfg i C P);
                 EPutProp (t, i) (P <| p_apply := Some Done |> <| p_term := c_term C |>)]) w) !! t = Some C' /\
@@ -557,13 +557,13 @@ Section Converge.
 
   Theorem apply_keeps_agreement (o : oracle) (w : world) t i m term r (k : nat) :
     (forall (C : config) (P : prop), cfgs w !! t = Some C -> props w !! (t, i) = Some P ->
-       apply_sound_at i (c_ainline C) (c_avalues C) (view C) (rb_change P) r (dstate_of w t)) ->
+       apply_sound_at (o_order o) i (c_ainline C) (c_avalues C) (view C) (rb_change P) r (dstate_of w t)) ->
     sent_by_apply w o t i m term r COk -> (3 <= k)%nat -> agrees w t ->
     let w' := step w (LRec (CtlProp (t, i)) k o) in
     agrees w' t /\ dstate_of w' t = dev_apply (dstate_of w t) r /\
     exists (C : config) (P : prop) (C' : config), cfgs w !! t = Some C /\ props w !! (t, i) = Some P /\
       cfgs w' !! t = Some C' /\ c_applied C' = i /\ c_applied C < i /\
-      aview C' = loaded (record_applied i (c_avalues C) (aview C) (view C) (rb_change P)) /\
+      aview C' = loaded (record_applied (o_order o) i (c_avalues C) (aview C) (view C) (rb_change P)) /\
       c_state C' = c_state C /\ c_aterm C' = c_aterm C /\ c_term C' = c_term C.
   Proof.
     intros HA Hs Hk (C0 & HC0 & Hag).
@@ -577,7 +577,7 @@ Section Converge.
      same request and, answered OK and run to the entry write, restores the agreement (needs apply_idem) *)
   Theorem cut_apply_retry (o o' : oracle) (w : world) t i m term r (k' : nat) :
     (forall (C : config) (P : prop), cfgs w !! t = Some C -> props w !! (t, i) = Some P ->
-       apply_sound_at i (c_ainline C) (c_avalues C) (view C) (rb_change P) r (dstate_of w t)) ->
+       apply_sound_at (o_order o') i (c_ainline C) (c_avalues C) (view C) (rb_change P) r (dstate_of w t)) ->
     apply_idem_at (dstate_of w t) r -> agrees w t -> sent_by_apply w o t i m term r COk ->
     let w1 := step w (LRec (CtlProp (t, i)) 1 o) in
     dstate_of w1 t = dev_apply (dstate_of w t) r /\ cfgs w1 = cfgs w /\
@@ -684,9 +684,9 @@ Section Converge.
     forall C, cfgs w !! t = Some C ->
       status_sound_at (pair_of C) /\
       match l with
-      | LRec (CtlProp (t', i)) _ _ =>
+      | LRec (CtlProp (t', i)) _ o =>
         t' = t -> forall (P : prop) r, props w !! (t, i) = Some P ->
-          apply_sound_at i (c_ainline C) (c_avalues C) (view C) (rb_change P) r (dstate_of w t)
+          apply_sound_at (o_order o) i (c_ainline C) (c_avalues C) (view C) (rb_change P) r (dstate_of w t)
       | LRec (CtlCfg t') _ _ =>
         t' = t -> exists rs, resync_payload (aview C) = map Some rs /\
                              resync_sound_empty_at (aview C) rs /\ resync_sound_same_at (aview C) rs (dstate_of w t)
@@ -787,7 +787,7 @@ Section Converge.
           assert (Hag : agrees w t) by (destruct Hmode as [Hag|(_ & Hu)]; [exact Hag|contradiction]).
           assert (Hk : (3 <= k)%nat) by (cbn [Proto2.reconcile] in Hcomp; rewrite Hes in Hcomp; cbn in Hcomp; lia).
           assert (HA : forall (C0 : config) (P0 : prop), cfgs w !! t = Some C0 -> props w !! (t, i) = Some P0 ->
-                         apply_sound_at i (c_ainline C0) (c_avalues C0) (view C0) (rb_change P0) r (dstate_of w t)).
+                         apply_sound_at (o_order o) i (c_ainline C0) (c_avalues C0) (view C0) (rb_change P0) r (dstate_of w t)).
           { intros C0 P0 HC0 HP0. rewrite HC in HC0. injection HC0 as <-. apply (Hpl eq_refl). exact HP0. }
           destruct (apply_keeps_agreement o w t i m (c_term C) r k HA Hs Hk Hag)
             as (Hag' & _ & C2 & P2 & C' & HC2 & _ & HC'' & Hi & Hlt2 & _).
@@ -864,7 +864,7 @@ Section Converge.
   Definition avalues_written (o : oracle) (w : world) (c : ctrl) (t : N) (C : config) (v : V) : Prop :=
     v = restore (c_avalues C) (aview C) \/
     exists i (P : prop), c = CtlProp (t, i) /\ props w !! (t, i) = Some P /\ dev_answer w t (c_term C) o = COk /\
-      v = record_applied i (c_avalues C) (aview C) (view C) (rb_change P).
+      v = record_applied (o_order o) i (c_avalues C) (aview C) (view C) (rb_change P).
 
   Lemma rec_prop_putavalues (o : oracle) (w : world) t' i t v :
     In (EPutAValues t v) (fst (rec_prop o w (t', i))) ->
